@@ -284,6 +284,19 @@ func (se *SpecEnv) evalID(name string) TV {
 }
 
 func (se *SpecEnv) lookupLocal(name string) (TV, bool) {
+	if tv, ok := se.lookupLocal0(name); ok {
+		return tv, true
+	}
+	// the baseline knows this name, the code has renamed the variable
+	if obj, ok := se.C.renamed[name]; ok {
+		if v, has := se.Env.getVar(se.Cur, obj); has {
+			return TV{v, obj.Type()}, true
+		}
+	}
+	return TV{}, false
+}
+
+func (se *SpecEnv) lookupLocal0(name string) (TV, bool) {
 	// Go scoping at the point the clause is attached to
 	if se.At.IsValid() && se.Pkg != nil && se.Pkg.Types != nil {
 		if inner := se.Pkg.Types.Scope().Innermost(se.At); inner != nil {
@@ -1172,6 +1185,9 @@ func (c *FCtx) havocRange(st *State, sl *SliceV, lo, hi *Term) {
 		st.assume(&Term{Op: "forall", Bound: []*Term{i}, Sort: SBool, Args: []*Term{
 			Implies(Not(in), Eq(Select(na, i), Select(old, i)))}, Pats: [][]*Term{{Select(na, i)}}})
 		c.heapSet(st, lf.Path, Store(mem, sl.Base, na))
+		if lf.Path == c.memKey(types.Typ[types.Uint8]) {
+			c.RowFrames = append(c.RowFrames, rowFrame{na: na, old: old, lo: c.iadd(sl.Off, lo), hi: c.iadd(sl.Off, hi)})
+		}
 	}
 }
 
